@@ -404,6 +404,9 @@ GITCFG = dict(COMMON, **{
     '<f>.write': {'effect': 'file_write', 'raises': True, 'returns': 'none'},
     '*.write': {'effect': 'file_write', 'raises': True, 'returns': 'none'},
     'os.path.dirname': QUIET, 'builtins.print': {'effect': None, 'raises': False, 'returns': 'none'},
+    # the rule lookup in an attributes text (pure string function; its own contract -- true iff an uncommented rule for exactly the
+    # pattern carries the attribute -- is checked at run time against an independent implementation, bounded: checks/c18.py)
+    'nbdime.utils.has_gitattribute': {'effect': 'attr_lookup', 'raises': False},
 })
 
 OWN_KEYS = {'diff.jupyternotebook.command', 'merge.jupyternotebook.driver', 'merge.jupyternotebook.name',
@@ -490,7 +493,7 @@ def _mentions(term, sub):
 
 
 def gc_attributes(path):
-    "the attributes file is only ever opened for reading or appending; what is appended is one line for this driver, preceded by a newline, and only when the file does not already route notebooks to the driver"
+    "the attributes file is only ever opened for reading or appending; what is appended is one line for this driver, preceded by a newline, and only when the file does not already route notebooks to the driver (marker absent from the content, or no *.ipynb rule carrying it)"
     opens = _eff(path, 'open')
     writes = _eff(path, 'file_write')
     loc = _eff(path, 'locate_attrs')
@@ -511,6 +514,12 @@ def gc_attributes(path):
         guards = [c for c in path.pc if 'contains' in str(c)]
         exists_false = any('exists' in str(c) and str(c).startswith('Not') for c in path.pc)
         found_guard = any(str(c).startswith('Not') and 'contains' in str(c) for c in guards)
+        # or: has_gitattribute(<content>, '*.ipynb', <marker>) was evaluated and is false on this path
+        for lk in _eff(path, 'attr_lookup'):
+            a = lk.args
+            if len(a) == 3 and a[1].kind == 'const' and a[1].t == '*.ipynb' and a[2].kind == 'const' and a[2].t == marker and \
+                    path.entails(z3.Not(truth(lk.result)))[0]:
+                found_guard = True
         if not (found_guard or exists_false):
             return False, 'rule appended without first checking that %r is absent' % marker
     if len(writes) > 1:
